@@ -6,6 +6,8 @@
   `le64 root ++ [codec] ++ le64 count ++ le32 0x76324D4C`.
 -/
 import Grenad.Proofs.MetaProofs
+import Grenad.Proofs.Wave3V1
+import Grenad.Props.C01
 
 namespace Grenad.Props.C10
 
@@ -69,3 +71,257 @@ example : Meta.parse (toV1 [] 0 5 3) = .ok { version := 1, root := 0, codec := 5
   C10_open [] 0 5 3 (by decide) (by decide) (by decide)
 
 end Grenad.Props.C10
+
+/-! ### Version-1 files at the byte level
+
+The blocks of a file written with `index_levels = 0`, followed by the 21-byte version-1 trailer
+carrying the same root offset, codec id and entry count.  `Wave3.body cd log` is the block area
+`log.flatMap (fun e => W.blockBytes cd e.raw)` of the written file; `reader`, `scanForward`,
+`scanBackward` are those of `Grenad.Props.C01` (the executable byte-level reader). -/
+
+namespace Grenad.Props.C10
+
+open Grenad Grenad.Assembly Grenad.Wave3 Grenad.Props.C01
+
+/-- The version-1 image of a written file whose parsed trailer is `m`. -/
+abbrev fileV1 (cd : Codec) (log : List Emitted) (es : List Entry) (m : Meta.Meta) : Bytes :=
+  toV1 (body cd log) m.root cd.id es.length
+
+/-- What opening the version-1 image returns. -/
+abbrev metaV1 (cd : Codec) (es : List Entry) (m : Meta.Meta) : Meta.Meta :=
+  ⟨1, m.root, cd.id, es.length, 0⟩
+
+theorem toV1_eq_encode (b : Bytes) (root codec count : Nat) :
+    toV1 b root codec count = b ++ Meta.encode ⟨1, root, codec, count, 0⟩ := by
+  simp [toV1, Meta.encode, Meta.magicV1, List.append_assoc]
+
+section
+variable {cd : Codec} {cfg : WCfg} {es : List Entry} {file : Bytes} {log : List Emitted}
+  {m : Meta.Meta}
+
+/-- The written file is the version-2 image of its blocks (`toV2`), and the version-1 image is
+    below `2^64` bytes. -/
+theorem C10_bytes_layout (S : Setting cd cfg es file log) (hl0 : cfg.levels = 0)
+    (hm : Meta.parse file = .ok m) :
+    file = toV2 (body cd log) m.root cd.id es.length ∧ m.root < (body cd log).length ∧
+    (fileV1 cd log es m).length + 1 = file.length := by
+  obtain ⟨root, hroot, hf, -, hp, -⟩ := setting_layout S
+  rw [hm] at hp
+  cases hp
+  rw [hl0] at hf
+  refine ⟨hf, hroot, ?_⟩
+  rw [fileV1, toV1_eq_encode]
+  conv => rhs; rw [hf]
+  simp [Meta.encode]
+
+/-- **C10, opening.**  The version-1 image opens as format version 1 with the root offset, codec
+    and count of the written file and a single-level index. -/
+theorem C10_bytes_open (S : Setting cd cfg es file log) (hm : Meta.parse file = .ok m) :
+    Meta.parse (fileV1 cd log es m) = .ok (metaV1 cd es m) := by
+  obtain ⟨root, hroot, hf, -, hp, -⟩ := setting_layout S
+  rw [hm] at hp
+  cases hp
+  have hb : (body cd log).length ≤ file.length := by rw [hf]; simp
+  have := S.hfile
+  exact C10_open _ _ _ _ (by simp only; omega) S.hid S.hcount
+
+private theorem v1_len' (S : Setting cd cfg es file log) :
+    (body cd log ++ Meta.encode ⟨1, m.root, cd.id, es.length, 0⟩).length < 2 ^ 64 :=
+  v1_len S _ _ _
+
+/-- **C10, every history.**  For every finite list of cursor operations, the results of the
+    byte-level reader over the version-1 image, from the cursor opened on it, agree with the
+    specification cursor over the inserted entries (same statement as `C01_bytes_history`). -/
+theorem C10_bytes_history (S : Setting cd cfg es file log) (hl0 : cfg.levels = 0)
+    (hm : Meta.parse file = .ok m) (ops : List Op) :
+    ∀ x ∈ runBothG (reader cd (fileV1 cd log es m)) es (RC.new (metaV1 cd es m)) .fresh ops,
+      Spec.Agree x.1 x.2 := by
+  obtain ⟨R, hsim, hR, -⟩ := retrailer_main S _ (v1_len' (m := m) S) hm (metaV1 cd es m) rfl
+    hl0.symm
+  rw [fileV1, toV1_eq_encode]
+  exact runBothG_agree hsim hR ops
+
+/-- **C10, identical results, every history.**  The reader over the version-1 image and the
+    reader over the written (version-2) file return the *same* result for every operation of
+    every history (including `current()` in positions where the specification leaves the result
+    open): both represent the same abstract reader state throughout. -/
+theorem C10_bytes_same_history (S : Setting cd cfg es file log) (hl0 : cfg.levels = 0)
+    (hm : Meta.parse file = .ok m) (ops : List Op) :
+    (runBothG (reader cd (fileV1 cd log es m)) es (RC.new (metaV1 cd es m)) .fresh ops).map Prod.fst
+      = (runBothG (reader cd file) es (RC.new m) .fresh ops).map Prod.fst := by
+  obtain ⟨root, hok, B1, B2, hT⟩ := retrailer_twin S _ (v1_len' (m := m) S) hm (metaV1 cd es m) rfl
+    hl0.symm
+  rw [fileV1, toV1_eq_encode, runBothG_map_fst, runBothG_map_fst]
+  exact twin_results hok B1 B2 hT ops
+
+/-- … and after any history, for any further operation (seeks after resets, etc.). -/
+theorem C10_bytes_same_after (S : Setting cd cfg es file log) (hl0 : cfg.levels = 0)
+    (hm : Meta.parse file = .ok m) (ops : List Op) (op : Op) :
+    (reader cd (fileV1 cd log es m)
+        (stateAfter (reader cd (fileV1 cd log es m)) (RC.new (metaV1 cd es m)) ops) op).2
+      = (reader cd file (stateAfter (reader cd file) (RC.new m) ops) op).2 := by
+  obtain ⟨root, hok, B1, B2, hT⟩ := retrailer_twin S _ (v1_len' (m := m) S) hm (metaV1 cd es m) rfl
+    hl0.symm
+  rw [fileV1, toV1_eq_encode]
+  exact (twin_step hok B1 B2 (twin_stateAfter hok B1 B2 hT ops) op).1
+
+/-- **C10, identical specified results.**  On the version-1 image and on the version-2 file:
+    `ge` / `le` / `eq` return the ceiling / floor / lookup of the query in the inserted entries;
+    forward and backward scans of any length coincide, and `next()` × `(n+1)` / `prev()` × `(n+1)`
+    return the inserted entries (reversed) then `None`; the range and prefix iterators, in both
+    directions, return the same lists — those of the specification. -/
+theorem C10_bytes_same_results (S : Setting cd cfg es file log) (hl0 : cfg.levels = 0)
+    (hm : Meta.parse file = .ok m) :
+    (∀ q, (reader cd (fileV1 cd log es m) (RC.new (metaV1 cd es m)) (.ge q)).2
+            = .ok (Spec.ceiling es q) ∧
+          (reader cd file (RC.new m) (.ge q)).2 = .ok (Spec.ceiling es q)) ∧
+    (∀ q, (reader cd (fileV1 cd log es m) (RC.new (metaV1 cd es m)) (.le q)).2
+            = .ok (Spec.floor es q) ∧
+          (reader cd file (RC.new m) (.le q)).2 = .ok (Spec.floor es q)) ∧
+    (∀ q, (reader cd (fileV1 cd log es m) (RC.new (metaV1 cd es m)) (.eq q)).2
+            = .ok (Spec.lookup es q) ∧
+          (reader cd file (RC.new m) (.eq q)).2 = .ok (Spec.lookup es q)) ∧
+    (∀ n, scanForward cd (fileV1 cd log es m) n (RC.new (metaV1 cd es m))
+            = scanForward cd file n (RC.new m)) ∧
+    (∀ n, scanBackward cd (fileV1 cd log es m) n (RC.new (metaV1 cd es m))
+            = scanBackward cd file n (RC.new m)) ∧
+    scanForward cd (fileV1 cd log es m) (es.length + 1) (RC.new (metaV1 cd es m))
+      = es.map (fun e => Res.ok (some e)) ++ [Res.ok none] ∧
+    scanBackward cd (fileV1 cd log es m) (es.length + 1) (RC.new (metaV1 cd es m))
+      = es.reverse.map (fun e => Res.ok (some e)) ++ [Res.ok none] ∧
+    (∀ lo hi fuel, fuel > es.length →
+      collect (RangeIter.next (reader cd (fileV1 cd log es m))) fuel
+          { cursor := RC.new (metaV1 cd es m), lo := lo, hi := hi } [] = some (Spec.range es lo hi) ∧
+      collect (RangeIter.next (reader cd file)) fuel
+          { cursor := RC.new m, lo := lo, hi := hi } [] = some (Spec.range es lo hi)) ∧
+    (∀ lo hi fuel, fuel > es.length →
+      collect (RangeIter.nextRev (reader cd (fileV1 cd log es m))) fuel
+          { cursor := RC.new (metaV1 cd es m), lo := lo, hi := hi } []
+        = some (Spec.range es lo hi).reverse ∧
+      collect (RangeIter.nextRev (reader cd file)) fuel
+          { cursor := RC.new m, lo := lo, hi := hi } [] = some (Spec.range es lo hi).reverse) ∧
+    (∀ p fuel, fuel > es.length →
+      collect (PrefixIter.next (reader cd (fileV1 cd log es m))) fuel
+          { cursor := RC.new (metaV1 cd es m), pre := p } [] = some (Spec.withPrefix es p) ∧
+      collect (PrefixIter.next (reader cd file)) fuel
+          { cursor := RC.new m, pre := p } [] = some (Spec.withPrefix es p)) ∧
+    (∀ p fuel, fuel > es.length →
+      collect (PrefixIter.nextRev (reader cd (fileV1 cd log es m))) fuel
+          { cursor := RC.new (metaV1 cd es m), pre := p } [] = some (Spec.withPrefix es p).reverse ∧
+      collect (PrefixIter.nextRev (reader cd file)) fuel
+          { cursor := RC.new m, pre := p } [] = some (Spec.withPrefix es p).reverse) := by
+  obtain ⟨R, hsim, hR, hside⟩ := retrailer_main S _ (v1_len' (m := m) S) hm (metaV1 cd es m) rfl
+    hl0.symm
+  obtain ⟨root, hok, B1, B2, hT⟩ := retrailer_twin S _ (v1_len' (m := m) S) hm (metaV1 cd es m) rfl
+    hl0.symm
+  have hasc := S.H.asc
+  simp only [fileV1, toV1_eq_encode]
+  refine ⟨fun q => ⟨sim_ge hsim hR q, C02_bytes_ge S hm q⟩,
+    fun q => ⟨sim_le hsim hasc hR q, C02_bytes_le S hm q⟩,
+    fun q => ⟨sim_eq hsim hasc hR q, C02_bytes_eq S hm q⟩,
+    fun n => twin_scan hok B1 B2 hT .next n,
+    fun n => twin_scan hok B1 B2 hT .prev n,
+    scan_next hsim hR, scan_prev hsim hR,
+    fun lo hi fuel hf => ⟨IterP.range_collect hsim hasc _ _ hR lo hi fuel hf,
+      C04_bytes_range S hm lo hi fuel hf⟩,
+    fun lo hi fuel hf => ⟨IterP.range_collect_rev hsim hasc _ _ hR lo hi fuel hf,
+      C04_bytes_range_rev S hm lo hi fuel hf⟩,
+    fun p fuel hf => ⟨IterP.prefix_collect hsim hasc _ _ hR p fuel hf,
+      C05_bytes_prefix S hm p fuel hf⟩,
+    fun p fuel hf => ⟨IterP.prefix_collect_rev hsim hasc _ _ hR p
+        (IterP.lostCurrentOK_of_mem hsim hasc _ _ hR p (hside _ _ hR)) fuel hf,
+      C05_bytes_prefix_rev S hm p fuel hf⟩⟩
+
+/-- Blocks are read identically: at every offset of the log, the loader over the version-1 image
+    (whatever root offset its trailer carries) returns the block the loader over the written
+    file returns. -/
+theorem C10_bytes_same_loads (S : Setting cd cfg es file log) (m : Meta.Meta)
+    (e : Emitted) (he : e ∈ log) :
+    loadCursor cd (fileV1 cd log es m) e.offset = loadCursor cd file e.offset := by
+  rw [fileV1, toV1_eq_encode]
+  exact loadCursor_retrailer S _ (v1_len' (m := m) S) he
+
+end
+
+/-! #### A concrete instance: the entries of `Props/C01`, `index_levels = 0` -/
+
+def v1Cfg : WCfg := { blockSize := 0, minBlock := 28, interval := 2, levels := 0 }
+
+theorem v1Hyps : WriterHyps Codec.none v1Cfg exEs :=
+  ⟨by decide, fun _ => rfl, by unfold StrictAsc exEs; decide, by simp [exEs]⟩
+
+def v1File2 : Bytes := match W.run Codec.none v1Cfg exEs with | .ok (f, _) => f | .error _ => []
+def v1Log : List Emitted := match W.run Codec.none v1Cfg exEs with | .ok (_, l) => l | .error _ => []
+def v1Meta : Meta.Meta := match Meta.parse v1File2 with | .ok m => m | .error _ => ⟨0, 0, 0, 0, 0⟩
+
+theorem v1Run : W.run Codec.none v1Cfg exEs = .ok (v1File2, v1Log) := by
+  obtain ⟨file, log, h⟩ := T_writer_ok v1Hyps
+  simp only [v1File2, v1Log, h]
+
+def v1SizesOK : Bool :=
+  decide (v1File2.length < 2 ^ 64) && v1Log.all (fun e => decide (e.raw.length < 2 ^ 32)) &&
+    decide (v1Log.map (·.level) = [0, 0, 0, 0, 1]) && decide (v1Meta.version = 2)
+
+theorem v1Sizes : v1SizesOK = true := by
+  set_option maxRecDepth 100000 in decide
+
+/-- The hypotheses of the theorems above are satisfiable. -/
+theorem v1Setting : Setting Codec.none v1Cfg exEs v1File2 v1Log := by
+  have h := v1Sizes
+  simp only [v1SizesOK, Bool.and_eq_true, decide_eq_true_eq, List.all_eq_true] at h
+  exact ⟨v1Hyps, by decide, v1Run, h.1.1.1, by decide, by decide, h.1.1.2⟩
+
+theorem v1Parse : Meta.parse v1File2 = .ok v1Meta := by
+  have h := v1Sizes
+  simp only [v1SizesOK, Bool.and_eq_true, decide_eq_true_eq] at h
+  have hv := h.2
+  unfold v1Meta at hv ⊢
+  cases hp : Meta.parse v1File2 with
+  | ok m => rfl
+  | error e => rw [hp] at hv; simp at hv
+
+example : Meta.parse (fileV1 Codec.none v1Log exEs v1Meta) = .ok (metaV1 Codec.none exEs v1Meta) :=
+  C10_bytes_open v1Setting v1Parse
+
+example (ops : List Op) :
+    ∀ x ∈ runBothG (reader Codec.none (fileV1 Codec.none v1Log exEs v1Meta)) exEs
+        (RC.new (metaV1 Codec.none exEs v1Meta)) .fresh ops, Spec.Agree x.1 x.2 :=
+  C10_bytes_history v1Setting rfl v1Parse ops
+
+example (p : Bytes) :
+    collect (PrefixIter.nextRev (reader Codec.none (fileV1 Codec.none v1Log exEs v1Meta))) 13
+        { cursor := RC.new (metaV1 Codec.none exEs v1Meta), pre := p } [] =
+      some (Spec.withPrefix exEs p).reverse :=
+  ((C10_bytes_same_results v1Setting rfl v1Parse).2.2.2.2.2.2.2.2.2.2 p 13 (by decide)).1
+
+/-- By evaluation in the kernel (no theorem used): the version-1 image is one byte shorter, opens
+    as version 1, scans back the twelve pairs in both directions, and answers a seek. -/
+def v1Check : Bool :=
+  let f1 := fileV1 Codec.none v1Log exEs v1Meta
+  match Meta.parse f1 with
+  | .ok m1 =>
+    decide (f1.length + 1 = v1File2.length ∧ m1.version = 1 ∧ m1.count = 12 ∧ m1.levels = 0 ∧
+      scanForward Codec.none f1 13 (RC.new m1) =
+        exEs.map (fun e => Res.ok (some e)) ++ [Res.ok none] ∧
+      scanBackward Codec.none f1 13 (RC.new m1) =
+        exEs.reverse.map (fun e => Res.ok (some e)) ++ [Res.ok none] ∧
+      (reader Codec.none f1 (RC.new m1) (.le [8])).2 = .ok (some ([7, 0], [])))
+  | .error _ => false
+
+theorem v1Check_true : v1Check = true := by
+  set_option maxRecDepth 100000 in decide
+
+end Grenad.Props.C10
+
+section Audit
+open Grenad.Props.C10
+#print axioms C10_bytes_layout
+#print axioms C10_bytes_open
+#print axioms C10_bytes_history
+#print axioms C10_bytes_same_history
+#print axioms C10_bytes_same_after
+#print axioms C10_bytes_same_results
+#print axioms C10_bytes_same_loads
+#print axioms v1Setting
+#print axioms v1Check_true
+end Audit
